@@ -303,7 +303,7 @@ func init() {
 					dup = true
 					continue
 				}
-				m.ex.z.Send("(assert (=> (not (= " + t + " " + u + ")) (not (= (" + name + " " + t + ") (" + name + " " + u + ")))))")
+				m.pendingAx = append(m.pendingAx, "(assert (=> (not (= "+t+" "+u+")) (not (= ("+name+" "+t+") ("+name+" "+u+")))))")
 			}
 			if !dup {
 				prev = append(prev, t)
@@ -314,6 +314,8 @@ func init() {
 			for i := 0; i < 8; i++ {
 				m.baSto(ba, CI(64, uint64(i)), Int{W: 8, S: fmt.Sprintf("((_ extract %d %d) %s)", 8*i+7, 8*i, h)})
 			}
+			org := s
+			ba.Org = &org
 			return Slice{B: ba, Off: CI(64, 0), Len: CI(64, 8), Cap: CI(64, 8)}
 		},
 		vrt + "Note": func(m *Machine, a []Val) Val { return nil },
@@ -772,6 +774,22 @@ func init() {
 			m.callFunction(f.Fn, nil, f.Env)
 			return nil
 		},
+		"github.com/muesli/cache2go.Cache": func(m *Machine, a []Val) Val {
+			// process-global registry of named tables (the package's own map is initialised by its init, which is not run)
+			key := "cache2go:" + concStr(m, a[0], "cache2go.Cache")
+			if v, ok := m.notes[key]; ok {
+				return v
+			}
+			f := m.prog.ImportedPackage("github.com/muesli/cache2go")
+			var v Val = Ptr{C: m.newCell(Opaque{Name: "cachetable"})}
+			if f != nil {
+				if t := f.Type("CacheTable"); t != nil {
+					v = Ptr{C: m.newCell(m.zero(t.Type()))}
+				}
+			}
+			m.notes[key] = v
+			return v
+		},
 		"runtime.Gosched": func(m *Machine, a []Val) Val { return nil },
 		"os.Getenv":       func(m *Machine, a []Val) Val { return Str{} },
 		"bufio.NewReader": func(m *Machine, a []Val) Val {
@@ -786,6 +804,11 @@ func init() {
 }
 
 func (m *Machine) bytesEqual(x, y Slice) Bool {
+	if x.B != nil && y.B != nil && x.B.Org != nil && y.B.Org != nil && x.Off.IsC() && y.Off.IsC() && x.Off.C == 0 && y.Off.C == 0 &&
+		x.Len.IsC() && y.Len.IsC() && x.Len.C == y.Len.C && x.B.Cap.IsC() && x.B.Cap.C == x.Len.C && y.B.Cap.IsC() && y.B.Cap.C == y.Len.C {
+		// both buffers hold values of the same injective hash
+		return m.strEq(*x.B.Org, *y.B.Org)
+	}
 	if x.B == nil || y.B == nil {
 		xe := x.B == nil && (x.Len.IsC() && x.Len.C == 0)
 		ye := y.B == nil && (y.Len.IsC() && y.Len.C == 0)
@@ -832,19 +855,30 @@ func (m *Machine) now() Int {
 }
 
 // ufBig: injective uninterpreted function BV128 -> String standing for (*big.Int).String().
+// The axioms (digits only, injective) are only sent to the solver when a string built from it
+// is actually compared through the string theory (strEq falls back from the structural decision).
 func (m *Machine) ufBig(t string) Str {
 	if _, ok := m.notes["decl:bigstr"]; !ok {
 		m.ex.z.Send("(declare-fun bigstr ((_ BitVec 128)) String)")
 		m.notes["decl:bigstr"] = CB(true)
 	}
 	nm := m.ex.Name("bigs", "String", "(bigstr "+t+")")
-	m.ex.z.Send("(assert (str.in_re " + nm + " (re.++ (re.opt (str.to_re \"-\")) (re.+ (re.range \"0\" \"9\")))))")
+	m.pendingAx = append(m.pendingAx, "(assert (str.in_re "+nm+" (re.++ (re.opt (str.to_re \"-\")) (re.+ (re.range \"0\" \"9\")))))")
 	prev, _ := m.notes["bigstr"].([]string)
 	for _, u := range prev {
-		m.ex.z.Send("(assert (=> (not (= " + t + " " + u + ")) (not (= (bigstr " + t + ") (bigstr " + u + ")))))")
+		if u != t {
+			m.pendingAx = append(m.pendingAx, "(assert (=> (not (= "+t+" "+u+")) (not (= (bigstr "+t+") (bigstr "+u+")))))")
+		}
 	}
 	m.notes["bigstr"] = append(prev, t)
-	return Str{S: nm}
+	return Str{S: nm, P: []strPart{{Big: t}}}
+}
+
+func (m *Machine) flushAxioms() {
+	for _, a := range m.pendingAx {
+		m.ex.z.Send(a)
+	}
+	m.pendingAx = nil
 }
 
 func (m *Machine) ufStr(name string, s Str) Str {
